@@ -30,8 +30,8 @@ CLAIMED = {
         note='Trusted: global table modelled rely/guarantee (reads return what calc_single wrote), Intern canonicity, listed rewrites. Domain: language int/float widths, nested sizes <= 1 GiB. The host C compiler comparison is not part of the proof.',
         ref='DESIGN.md 5 (C17)'),
     'C18': dict(
-        text='Deductive proof over the real text of simple_id, simple_id_with_align, UIDGenerator::generate_unique_id and the id-assigning match of to_type_id: for every type, the runtime type id decodes (with the masks core/src/meta.capy uses) to the kind, size, alignment and sign/mutability flag of the layout tables; compound ids carry their kind and a fresh index; ids of simple types are injective -- except isize/i64 and usize/u64, a recorded known finding.',
-        note='Partial: type-id clause only. compile_meta_builtins (the data reflection reads), core/src/meta.capy and `any` are not under contract; the memo lookup of to_type_id (iterator find) is assumed; recursive calls are stubs.',
+        text='Deductive proof over the real text of simple_id, simple_id_with_align, UIDGenerator::generate_unique_id and the id-assigning match of to_type_id: for every type, the runtime type id decodes (with the masks core/src/meta.capy uses) to the kind, size, alignment and sign/mutability flag of the layout tables; compound ids carry their kind and a fresh index; ids of simple types are injective -- except isize/i64 and usize/u64, a recorded known finding. Unit any_cast adds the `any` clause: cast_into_memory keeps the ORIGINAL source type and its `(_, Ty::Any)` arm stores exactly that type\'s id (4 bytes at offset 0 of the any value).',
+        note='Partial: type-id and any-carries-type clauses only. compile_meta_builtins (the data reflection reads) and core/src/meta.capy are not under contract; the memo lookup of to_type_id (iterator find) is assumed; recursive calls are stubs.',
         ref='DESIGN.md 5 (C18)'),
     'C25': dict(
         text='Deductive proof over the real text of LineIndex::line_col, Index<LineNr>::index and the Sub impls: for every text, every index built from it and every offset in it, line = number of newlines before the offset and column = offset - start of that line; no underflow, no out-of-bounds.',
